@@ -87,7 +87,7 @@ type nilFn struct {
 	info    *types.Info
 	params  map[types.Object]int
 	exits   []nstate
-	typeSw  map[types.Object]bool // type-switch vars that may be typed nil
+	typeSw  map[types.Object]bool         // type-switch vars that may be typed nil
 	pairVal map[types.Object]types.Object // found-flag of a (pointer, bool) lookup call -> the pointer it vouches for
 	pairPtr map[types.Object]bool         // pointers obtained together with a found-flag
 	collect bool
